@@ -16,6 +16,8 @@ func TestVerifStream(t *testing.T) {
 			return verifSearch(ws)
 		case strings.HasPrefix(ws[0], "key."):
 			return verifKey(ws)
+		case ws[0] == "ring.rehash":
+			return verifRehash(ws)
 		}
 		return "", false
 	})
